@@ -13,18 +13,18 @@ CHUNK = 2
 RULE = ('Cases: files of 2..6 samples and a weed FASTA made of pieces of the samples (some reverse-complemented, mutated, '
         'containing N, lower case), random sequence, records shorter than k, everything (empty result) or nothing.  '
         '`ska weed x.skf seqs.fa --min-freq 0` and `--reverse` are compared with the model (rows whose arms are / are not in '
-        'the model dictionary of seqs.fa at the file\'s k and strand mode); forward and reverse results must partition the '
+        'the model dictionary of seqs.fa at the file\'s k and strand mode); the stored result is also decoded through the harness (k-mer integers, rows, per-row counts, container lengths); forward and reverse results must partition the '
         'original, surviving rows keep all bases, names are unchanged, a second identical weed changes nothing.  In '
         'single-strand files a reverse-complemented weed sequence must not match.  Widths across k=31/33/35.  Non-trivial: the '
         'weed set removes some but not all rows; distinct = distinct (k, mode, samples, weed records).')
 ASSUMPTIONS = ['frequency filtering is switched off with --min-freq 0 as the statement requires',
                'the model dictionary of the weed file is computed by vlib/model.py']
 REQUIRED = {t: ['weed:forward', 'weed:reverse', 'partition_checked', 'idempotence_checked', 'weed_all', 'weed_nothing',
-                'single_strand_rc_not_matched', 'rows_removed', 'rows_kept', 'width64', 'width128'] for t in ('quick', 'thorough')}
+                'single_strand_rc_not_matched', 'rows_removed', 'rows_kept', 'width64', 'width128', 'stored_objects_checked'] for t in ('quick', 'thorough')}
 
 
 def builds(tier):
-    return ['rel', 'chk']
+    return ['rel', 'chk', 'harness']
 
 
 def plan(tier, seed, rng, scale):
@@ -144,6 +144,11 @@ def run_case(desc, ctx):
             for f in ('k', 'rc', 'samples'):
                 if hw.get(f) != hdr.get(f):
                     bad.append('header %s changed' % f)
+            if variant == 'rel' and not bad and exp:
+                # the stored object itself: decoded k-mer integers, rows, per-row counts, lengths of the parallel containers
+                bad += G.stored_problems(ctx, result_file, exp, hdr.get('names'), k, rcmode)
+                if not bad:
+                    res.count('stored_objects_checked')
             if bad:
                 res.violate(sig + ':table', 'k=%d rc=%s kind=%s reverse=%s (%s): %s' % (k, rcmode, kind, rev, variant, '; '.join(bad[:3])),
                             {'samples': samples, 'weed': wrecs})
